@@ -1389,6 +1389,13 @@ impl<RW: QueueRW<T>, T> Stream for &FutInnerRecv<RW, T> {""")]),
         }
         pending
     }""")]),
+    V('recv-pin-cell-hoisted-out-of-retry-loop', 'C04', ['P3b'], [E(MQ, """        let is_single = reader.is_single();
+        unsafe {
+            loop {""", """        let is_single = reader.is_single();
+        unsafe {
+            let ref_cell = &*self.refs.offset(ctail_attempt.get().0);
+            loop {"""), E(MQ, """                let ref_cell = &*self.refs.offset(ctail);
+                if !is_single {""", """                if !is_single {""")]),
 ]
 
 # behaviour-preserving patches written by independent sub-agents (tools/eval_refactors.sh, DESIGN 12.9): every check
